@@ -23,3 +23,52 @@ Theorem C18_sweep_then_complete :
       res_bind (res_bind (sweep_complete ar (before_complete A ar s1)) (fun s => Ok (set_l2r s true)))
                (fun s => Ok (emit s (EvSave A))).
 Proof. exact sweep_then_complete. Qed.
+
+(* ---- the noisy invariant (times over R because the root finder's theorems are over R) ---------- *)
+From Coq Require Import Reals.
+From EV Require Import Model.BrentLoop Proofs.BrentProofs Proofs.NoisyInv Proofs.NoisyBranches
+  Proofs.NoisyComplete Proofs.NoisySweep Proofs.NoisyRun.
+
+(* One sweep of the noisy solver, for EVERY norm / random / matrix-change oracle stream: either it stops
+   with one of three explicit errors (an oracle stream ran out; the root-finder constructor was handed a
+   norm gap that is exactly zero; the renormalised state's norm was not 1), or the invariant is kept:
+   the current time stays inside the time step in progress; when a root search is running the target
+   time is the pending abscissa of a valid Brent bracket contained in the step; fill_results is called
+   at most once, and exactly when the step index advances, at the step's end time; every quantum jump
+   of the sweep happens at a time inside the step in progress. *)
+Theorem C18_noisy_sweep_invariant :
+  forall (s : mstate R) (n : nat),
+  wf s -> m_N s = Z.of_nat n + 3 -> sweep_start R s -> tinv s ->
+  match iter_progress R_arith (Datatypes.S n + 1 + n + 1) s with
+  | Ok s' => wf s' /\ m_N s' = m_N s /\ m_steps s' = m_steps s /\ m_times s' = m_times s /\
+             sweep_start R s' /\ (is_finished s' = true \/ tinv s') /\ step_effect s s'
+  | Err m => allowed_err m
+  | OutOfFuel => False
+  end.
+Proof. exact noisy_sweep_inv. Qed.
+
+(* A whole noisy run from the constructor, after any number m of sweeps (2N-3 progress() calls each). *)
+Theorem C18_noisy_whole_run :
+  forall (n : nat) (t1 : R) (rest : list R) etol maxsw onorm ounif oenergy osame (m : nat),
+  (forall k, 0 <= k < 1 + Z.of_nat (length rest) ->
+             (tmL (0%R :: t1 :: rest) k < tmL (0%R :: t1 :: rest) (k + 1))%R) ->
+  match mk_initial R_arith Noisy (Z.of_nat n + 3) (1 + Z.of_nat (length rest)) (0%R :: t1 :: rest) etol maxsw
+                   onorm ounif oenergy osame with
+  | Ok s0 =>
+      match iter_progress R_arith (m * (2 * n + 3)) s0 with
+      | Ok s' => RunInv n s'
+      | Err e => allowed_err e
+      | OutOfFuel => False
+      end
+  | Err e => e = E_ORACLE
+  | OutOfFuel => False
+  end.
+Proof. exact noisy_whole_run. Qed.
+
+(* Once finished: every time step was recorded exactly once, in order, at its end time (plus the
+   record at t = 0), and every quantum jump happened inside some time step. *)
+Theorem C18_finished_run_records_each_step_once :
+  forall (n : nat) (s : mstate R),
+  RunInv n s -> is_finished s = true ->
+  flat_map fill_of (rev (m_ev s)) = (0, 0%R) :: fills_upto s (Z.to_nat (m_steps s)) /\ jumps_ok s.
+Proof. exact finished_run_fills. Qed.
